@@ -560,5 +560,191 @@ theorem preserved_of_write (find : Finder) (hf : FinderOK find) (t : Fmt) (old :
             featuresViaLib := fun _ => ⟨cl, fs, hsplit, hloss, fun hdist => by simp only [fromV1, v1Pieces_toV1 cl fs hdist]⟩ }
 
 
+/-! ### invariants, loading, back to format 3 -/
+
+theorem write_glif1 (find : Finder) (t : Fmt) (maps : Option Maps) (c : Full) (d : Disk)
+    (h : write find t maps c = some d) : DiskGlif1 d := by
+  intro hne l hl p hp
+  cases hbt : t.below3 with
+  | false =>
+    have ht3 : t = .f3 := by cases t <;> simp [Fmt.below3] at hbt ⊢
+    subst ht3
+    exact absurd (write_f3 find maps c d h).1 hne
+  | true =>
+    obtain ⟨_, hlayers, _, _⟩ := write_below3 find t hbt maps c d h
+    rw [hlayers] at hl
+    simp only [List.mem_singleton] at hl
+    subst hl
+    simp only [List.mem_map] at hp
+    obtain ⟨q, _, rfl⟩ := hp
+    rfl
+
+theorem keys_loaded {α : Type} (l : List (String × α)) : AL.keys (loaded l) = AL.keys l := by
+  simp [AL.keys, loaded, List.map_map, Function.comp_def]
+
+theorem keys_unloaded {α : Type} (l : List (String × α)) : AL.keys (unloaded l) = AL.keys l := by
+  simp [AL.keys, unloaded, List.map_map, Function.comp_def]
+
+theorem preloadLayer_name (m : Mem) (c : Full) (t : Fmt) (sa : Bool) (l : MLayer) :
+    (preloadLayer m c t sa l).name = l.name := by
+  unfold preloadLayer
+  split
+  · rfl
+  · split <;> rfl
+
+theorem preloadLayer_cases (m : Mem) (c : Full) (t : Fmt) (sa : Bool) (l : MLayer) :
+    preloadLayer m c t sa l = l ∨
+    ∃ x, c.layers.find? (fun x => x.name = l.name) = some x ∧ keepLazy m t sa l = false ∧
+      preloadLayer m c t sa l = ⟨l.name, loaded x.glyphs, l.info⟩ := by
+  cases hk : keepLazy m t sa l with
+  | true => left; unfold preloadLayer; simp [hk]
+  | false =>
+    cases hf : c.layers.find? (fun x => decide (x.name = l.name)) with
+    | none => left; unfold preloadLayer; simp [hk, hf]
+    | some x => right; exact ⟨x, rfl, rfl, by unfold preloadLayer; simp [hk, hf]⟩
+
+/-- the invariants hold for a freshly opened font … -/
+theorem read_wf (d : Disk) (mp : Maps) (m : Mem) (wf : DiskWF d) (hg : DiskGlif1 d) (h : read d mp = some m) :
+    MemWF m ∧ BoundGlif1 m := by
+  unfold read at h
+  simp only [Option.map_eq_some_iff] at h
+  obtain ⟨parts, _, rfl⟩ := h
+  refine ⟨⟨?_, ?_, ?_, ?_, ?_⟩, ?_⟩
+  · simpa [List.map_map, Function.comp_def] using wf.layerNames
+  · intro l hl
+    simp only [List.mem_map] at hl
+    obtain ⟨x, hx, rfl⟩ := hl
+    simp only [keys_unloaded]
+    exact wf.glyphNames x hx
+  · simp only [keys_unloaded]; exact wf.imageNames
+  · simp only [keys_unloaded]; exact wf.dataNames
+  · intro d' hd'; simp only [Option.some.injEq] at hd'; subst hd'; rfl
+  · intro d' hd'; simp only [Option.some.injEq] at hd'; subst hd'; exact hg
+
+/-- … and are kept by every save that completes -/
+theorem save_wf (find : Finder) (m m' : Mem) (t : Fmt) (ip : Bool) (wf : MemWF m) (h : save find m t ip = some m') :
+    MemWF m' ∧ BoundGlif1 m' := by
+  cases hc : observe m with
+  | none => unfold save at h; simp [hc] at h
+  | some c =>
+    obtain ⟨d, hd, rfl⟩ := save_some find m m' t ip c hc h
+    have wfc := observe_wf m c wf hc
+    obtain ⟨hl, him, hda, _, _⟩ := observe_some m c hc
+    refine ⟨⟨?_, ?_, ?_, ?_, ?_⟩, ?_⟩
+    · simp only [preload, List.map_map, Function.comp_def, preloadLayer_name]
+      exact wf.layerNames
+    · intro l hl
+      simp only [preload, List.mem_map] at hl
+      obtain ⟨a, ha, rfl⟩ := hl
+      rcases preloadLayer_cases m c t (!ip || decide (m.fmt ≠ some t)) a with h1 | ⟨x, hx, _, h1⟩
+      · rw [h1]; exact wf.glyphNames a ha
+      · rw [h1]
+        simp only [keys_loaded]
+        exact wfc.glyphNames x (List.mem_of_find?_eq_some hx)
+    · simp only [preload]
+      split
+      · rw [keys_loaded]; exact wfc.imageNames
+      · exact wf.imageNames
+    · simp only [preload]
+      split
+      · rw [keys_loaded]; exact wfc.dataNames
+      · exact wf.dataNames
+    · intro d' hd'
+      simp only [Option.some.injEq] at hd'
+      subst hd'
+      cases hbt : t.below3 with
+      | false =>
+        have ht3 : t = .f3 := by cases t <;> simp [Fmt.below3] at hbt ⊢
+        subst ht3
+        rw [(write_f3 find m.maps c d hd).1]
+      | true => rw [(write_below3 find t hbt m.maps c d hd).1]
+    · intro d' hd'
+      simp only [Option.some.injEq] at hd'
+      subst hd'
+      exact write_glif1 find t m.maps c d hd
+
+/-- after a save below format 3 nothing that format cannot store is left unread (and on a save-as
+nothing at all) -/
+theorem below3_all_loaded (find : Finder) (m m' : Mem) (t : Fmt) (ip : Bool) (ht : t.below3 = true)
+    (h : save find m t ip = some m') :
+    (∀ p ∈ m'.images, p.2.isSome) ∧ (∀ p ∈ m'.data, p.2.isSome) ∧
+    (∀ l ∈ m'.layers, (l.name ≠ m.defaultName ∨ ip = false ∨ m.fmt ≠ some t) → ∀ p ∈ l.glyphs, p.2.isSome) := by
+  cases hc : observe m with
+  | none => unfold save at h; simp [hc] at h
+  | some c =>
+    obtain ⟨d, hd, rfl⟩ := save_some find m m' t ip c hc h
+    obtain ⟨hl, _, _, _, _⟩ := observe_some m c hc
+    have hnames : c.layers.map (fun l => l.name) = m.layers.map (fun l => l.name) :=
+      allSome_map_names (observeLayer m) (fun l => l.name) (fun l => l.name) m.layers c.layers hl
+        (fun a b hab => (observeLayer_some m a b hab).1)
+    have hld : ∀ {α : Type} (l : List (String × α)), ∀ p ∈ loaded l, p.2.isSome := by
+      intro α l p hp
+      simp only [loaded, List.mem_map] at hp
+      obtain ⟨q, _, rfl⟩ := hp
+      rfl
+    refine ⟨?_, ?_, ?_⟩
+    · simp only [preload, ht, if_true]; exact hld _
+    · simp only [preload, ht, if_true]; exact hld _
+    · intro l hl' hcond p hp
+      simp only [preload, List.mem_map] at hl'
+      obtain ⟨a, ha, rfl⟩ := hl'
+      rw [preloadLayer_name] at hcond
+      have hkeep : keepLazy m t (!ip || decide (m.fmt ≠ some t)) a = false := by
+        unfold keepLazy
+        simp only [ht, if_true]
+        rcases hcond with h1 | h1 | h1
+        · simp [h1]
+        · simp [h1]
+        · simp [h1]
+      have hmem : a.name ∈ c.layers.map (fun l => l.name) := by rw [hnames]; exact List.mem_map.mpr ⟨a, ha, rfl⟩
+      obtain ⟨x, hx, hxn⟩ := List.mem_map.mp hmem
+      unfold preloadLayer at hp
+      simp only [hkeep, Bool.false_eq_true, if_false] at hp
+      cases hf : c.layers.find? (fun x => decide (x.name = a.name)) with
+      | none =>
+        have := List.find?_eq_none.mp hf x hx
+        simp [hxn] at this
+      | some y =>
+        rw [hf] at hp
+        exact hld _ p hp
+
+/-- "saving back to UFO 3 from such a font": a font opened from a UFO 1/2 and saved as UFO 3 writes
+kerning that names the renamed groups and groups that contain them with the members the old
+groups had -/
+theorem back_to_3 (find : Finder) (d0 d : Disk) (mp : Maps) (m m' : Mem) (ip : Bool)
+    (h0 : d0.fmt ≠ .f3) (ok : MapsOK mp d0.groups d0.kerning)
+    (hr : read d0 mp = some m) (hs : save find m .f3 ip = some m') (hb : m'.bound = some d) :
+    (∀ a b v, AL.get? d0.kerning (a, b) = some v → AL.get? d.kerning (rn mp.side1 a, rn mp.side2 b) = some v) ∧
+    (∀ n ∈ AL.keys d0.groups, AL.get? d.groups n = AL.get? d0.groups n) ∧
+    (∀ p ∈ mp.side1 ++ mp.side2, AL.get? d.groups p.2 = AL.get? d0.groups p.1) := by
+  have hparts : m.parts.kerning = upKerning mp d0.kerning ∧ m.parts.groups = upGroups mp d0.groups := by
+    unfold read at hr
+    simp only [Option.map_eq_some_iff] at hr
+    obtain ⟨parts, hp, rfl⟩ := hr
+    simp only
+    unfold readParts at hp
+    cases hf : d0.fmt with
+    | f3 => exact absurd hf h0
+    | f2 => simp only [hf, Option.some.injEq] at hp; subst hp; exact ⟨rfl, rfl⟩
+    | f1 =>
+      simp only [hf] at hp
+      split at hp
+      · cases hp
+      · simp only [Option.some.injEq] at hp; subst hp; exact ⟨rfl, rfl⟩
+  cases hc : observe m with
+  | none => unfold save at hs; simp [hc] at hs
+  | some c =>
+    obtain ⟨d', hd', rfl⟩ := save_some find m m' .f3 ip c hc hs
+    simp only [Option.some.injEq] at hb
+    subst hb
+    obtain ⟨_, _, _, _, hpa⟩ := observe_some m c hc
+    simp only [write, Option.some.injEq] at hd'
+    subst hd'
+    simp only [hpa, hparts.1, hparts.2]
+    exact ⟨fun a b v h => upKerning_pair mp d0.groups d0.kerning ok a b v h,
+           fun n hn => upGroups_old mp d0.groups d0.kerning ok n hn,
+           fun p hp => upGroups_new mp d0.groups d0.kerning ok p hp⟩
+
+
 end Conv
 end DefconModel
